@@ -478,6 +478,14 @@ class IndexRun:
         CTL.enabled = False
         try:
             self.steps.append(self.run_coro(self.observe(ev, extra)))
+        except (NoProgress, CrashNow):
+            raise
+        except Exception as e:      # pylint:disable=broad-except
+            # the public read API (or a raw scan) raised on what is in the database: recorded as a death of the server -
+            # nothing can be served from this index
+            self.steps.append({'ev': 'died', 'why': 'other', 'exc': f'the index cannot be read ({ev}): {e!r}'[:200], 'need': 0,
+                               'shrunk': False, 'behind': False})
+            raise StopRun()
         finally:
             CTL.enabled = saved
 
